@@ -294,6 +294,7 @@ class Scheduler:
         self.main = None
         self.now = 1000.0
         self.steps = 0
+        self.engine_release_steps = []  # steps at which a lock created by the engine itself was released
         self.seq = 0
         self.events = []
         self.switches = 0
@@ -402,6 +403,8 @@ class Scheduler:
                 raise DeadlockError(self.dead[0])
             return
         self._check_budget()
+        if kind == "release" and info and info.endswith("run_function_on_graph.py"):
+            self.engine_release_steps.append(self.steps)
         cur = self.current
         if _DEBUG and cur.obj.ident != _thread.get_ident():
             sys.stderr.write("ROGUE in point: current=%r me=%r kind=%s\n%s\n" % (cur, [t for t in self.threads if t.obj.ident == _thread.get_ident()], kind, "".join(traceback.format_stack(limit=12))))
@@ -670,10 +673,11 @@ def _coop_code():
 
 def _make_namespace(s: Scheduler):
     class Lock:
-        __slots__ = ("held",)
+        __slots__ = ("held", "origin")
 
         def __init__(self):
             self.held = False
+            self.origin = sys._getframe(1).f_code.co_filename  # which module created this lock
 
         def acquire(self, blocking=True, timeout=-1):
             # No interrupt injection into Condition's internal re-acquire of its lock at the end
@@ -704,7 +708,7 @@ def _make_namespace(s: Scheduler):
             if _DEBUG:
                 _HIST.setdefault(id(self), []).append(("rel", s.current.id, s.steps, [f"{f.filename.rsplit('/',1)[-1]}:{f.lineno}" for f in traceback.extract_stack(limit=5)[:-1]]))
             self.held = False
-            s.point("release", None)
+            s.point("release", self.origin)
 
         def locked(self):
             return self.held
